@@ -43,8 +43,20 @@ def rule_unit(E, R):
         R.check(ok, rule, p, "only unit variants: an alias spelling has nowhere to be stored", where=a["span"])
     # text-bearing fields of AST nodes (census, informational): names, decoded literals and patterns only
     text = []
+    # the AST proper: every ADT reachable through field types from the two root nodes
+    reach = set()
+    todo = ["ast::FilterAst", "ast::FilterValueAst"]
+    while todo:
+        q = todo.pop()
+        if q in reach or q not in E.adts:
+            continue
+        reach.add(q)
+        for v in E.adts[q]["variants"]:
+            for f in v["fields"]:
+                todo += [x for x in f.get("adts", []) if x not in reach]
+    R.floor(rule, "ADTs reachable from FilterAst / FilterValueAst", len(reach), 15)
     for p, a in E.adts.items():
-        if not (p.startswith("ast::") and "::tests::" not in p):
+        if not (p.startswith("ast::") and "::tests::" not in p and p in reach):
             continue
         for v in a["variants"]:
             for f in v["fields"]:
